@@ -1304,6 +1304,188 @@ Proof.
   rewrite S3, D3. reflexivity.
 Qed.
 
+(* ================================================================== *)
+(* converse direction: what One::Parse accepts as a TCP line IS well-formed *)
+Lemma skipChar_inv c buf r : tok_skipChar c buf = (true, r) -> buf = c :: r.
+Proof.
+  destruct buf as [|y b]; cbn [tok_skipChar]; [discriminate|].
+  destruct (y =? c) eqn:E; [|discriminate]. intros H; inversion H; subst. apply N.eqb_eq in E. subst. reflexivity.
+Qed.
+
+Lemma starts_with_split l p : starts_with l p = true -> l = p ++ dropN (lenN p) l.
+Proof.
+  revert l; induction p as [|y p IH]; intros l H; [cbn [lenN app]; rewrite dropN_0; reflexivity|].
+  destruct l as [|a l]; cbn [starts_with] in H; [discriminate|].
+  apply andb_true_iff in H as [H1 H2]. apply N.eqb_eq in H1. subst a.
+  cbn [lenN app dropN]. destruct (N.succ (lenN p) =? 0) eqn:E; [lia|]. rewrite N.pred_succ. f_equal. apply IH, H2.
+Qed.
+
+Lemma tok_skip_inv p buf r : tok_skip p buf = (true, r) -> buf = p ++ r.
+Proof.
+  unfold tok_skip. destruct (starts_with buf p) eqn:S; [|discriminate].
+  intros H; inversion H; subst. apply starts_with_split, S.
+Qed.
+
+Lemma digit_of_nondigit c : is_digit c = false -> digit_of 10 c = None.
+Proof.
+  unfold digit_of, digit_raw. intros ->.
+  destruct (is_upper c) eqn:U.
+  - unfold is_upper in U. destruct (Z.of_N c - 55 >=? 10)%Z eqn:E; [reflexivity|lia].
+  - destruct (is_lower c) eqn:L; [|reflexivity].
+    unfold is_lower in L. destruct (Z.of_N c - 87 >=? 10)%Z eqn:E; [reflexivity|lia].
+Qed.
+
+Lemma digit_split t : exists ds r, t = ds ++ r /\ Forall is_dec ds /\ stops10 r.
+Proof.
+  exists (fst (span is_digit t)), (snd (span is_digit t)).
+  split; [symmetry; apply span_app|]. split.
+  - pose proof (span_all is_digit t) as H. induction (fst (span is_digit t)) as [|c l IH]; [constructor|].
+    cbn [forallb] in H. apply andb_true_iff in H as [Hc Hl]. constructor; [unfold is_digit in Hc; unfold is_dec; lia|exact (IH Hl)].
+  - pose proof (span_stop is_digit t) as H. destruct (snd (span is_digit t)) as [|y r]; [exact I|].
+    cbn [stops10]. apply digit_of_nondigit, H.
+Qed.
+
+Lemma tok_int64_inv t v k :
+  lenN t <= npos -> tok_int64 10 false npos t = Some (v, k) ->
+  exists ds r, t = ds ++ r /\ ds <> [] /\ Forall is_dec ds /\ stops10 r /\ v = Z.of_N (dec_value ds) /\ k = lenN ds.
+Proof.
+  intros Hl H. destruct (digit_split t) as (ds & r & -> & Hd & Hs).
+  unfold tok_int64 in H. rewrite int64_front_base10 in H.
+  destruct ds as [|c ds].
+  - cbn [app] in *. destruct r as [|y r]; [discriminate|]. change (npos =? 0) with false in H. cbv iota in H.
+    rewrite takeN_all in H by exact Hl. rewrite int64_core_nondigit in H by exact Hs. discriminate.
+  - change ((c :: ds) ++ r) with (c :: ds ++ r) in H. change (npos =? 0) with false in H. cbv iota in H.
+    change (c :: ds ++ r) with ((c :: ds) ++ r) in H. rewrite takeN_all in H by exact Hl.
+    assert (Hne : c :: ds <> []) by discriminate.
+    destruct (int64_core_dich (c :: ds) r 0 Hne Hd Hs) as [E|E]; rewrite E in H; [discriminate|].
+    inversion H; subst. exists (c :: ds), r. repeat split; try assumption; try lia.
+Qed.
+
+Lemma extract_port_inv ts t p r2 :
+  lenN t <= npos -> v1_extract_port ts t = inr (p, r2) ->
+  exists ds, t = ds ++ (if ts then 32 :: r2 else r2) /\ ds <> [] /\ Forall is_dec ds /\
+             p = dec_value ds /\ p <= 65535 /\ (if ts then True else stops10 r2).
+Proof.
+  intros Hl. unfold v1_extract_port.
+  destruct (tok_int64 10 false npos t) as [[port k]|] eqn:E; [|discriminate].
+  destruct (tok_int64_inv t port k Hl E) as (ds & r & -> & Hne & Hd & Hs & -> & ->).
+  rewrite dropN_app_exact.
+  destruct ts.
+  - destruct (tok_skipChar 32 r) as [[|] q] eqn:S; [|discriminate]. apply skipChar_inv in S. subst r.
+    destruct (Z.of_N (dec_value ds) >? 65535)%Z eqn:G; [discriminate|]. intros H; inversion H; subst.
+    exists ds. rewrite Z.mod_small by lia. rewrite N2Z.id. repeat split; try assumption. lia.
+  - destruct (Z.of_N (dec_value ds) >? 65535)%Z eqn:G; [discriminate|]. intros H; inversion H; subst.
+    exists ds. rewrite Z.mod_small by lia. rewrite N2Z.id. repeat split; try assumption. lia.
+Qed.
+
+Lemma extract_ip_inv ipf t a r2 :
+  v1_extract_ip ipf t = inr (a, r2) ->
+  exists ip, t = ip ++ 32 :: r2 /\ ip <> [] /\ forallb ipChars ip = true /\ ipf ip = Some a.
+Proof.
+  unfold v1_extract_ip. destruct (tok_prefix ipChars npos t) as [[ip r1]|] eqn:P; [|discriminate].
+  apply tok_prefix_sound in P as (Ht & Hne & Hall & _).
+  destruct (tok_skipChar 32 r1) as [[|] q] eqn:S; [|discriminate]. apply skipChar_inv in S. subst r1.
+  destruct (ipf ip) as [a'|] eqn:I; [|discriminate]. intros H; inversion H; subst.
+  exists ip. repeat split; assumption.
+Qed.
+
+Lemma list_eqb_eq a b : list_eqb a b = true -> a = b.
+Proof.
+  revert b; induction a as [|x a IH]; intros [|y b]; cbn [list_eqb]; try discriminate; [reflexivity|].
+  intros H. apply andb_true_iff in H as [H1 H2]. apply N.eqb_eq in H1. subst. f_equal. apply IH, H2.
+Qed.
+
+Lemma v1_addresses_inv ipf t s sp d dp lo :
+  lenN t <= npos -> v1_addresses ipf t = inr (s, sp, d, dp, lo) ->
+  exists fam st dt sps dps,
+    t = fam :: 32 :: st ++ 32 :: dt ++ 32 :: sps ++ 32 :: dps ++ lo /\
+    famChars fam = true /\ address_family s d = [fam] /\
+    st <> [] /\ forallb ipChars st = true /\ ipf st = Some s /\
+    dt <> [] /\ forallb ipChars dt = true /\ ipf dt = Some d /\
+    sps <> [] /\ Forall is_dec sps /\ sp = dec_value sps /\ sp <= 65535 /\
+    dps <> [] /\ Forall is_dec dps /\ dp = dec_value dps /\ dp <= 65535 /\ stops10 lo.
+Proof.
+  intros Hl. unfold v1_addresses.
+  destruct (tok_prefix famChars 1 t) as [[fam r1]|] eqn:P; [|discriminate].
+  apply tok_prefix_sound in P as (Ht & Hne & Hall & Hle & _).
+  assert (exists f, fam = [f]) as (f & ->).
+  { destruct fam as [|f [|g fam]]; [congruence|exists f; reflexivity|cbn [lenN] in Hle; lia]. }
+  cbn [forallb] in Hall. rewrite andb_true_r in Hall.
+  destruct (tok_skipChar 32 r1) as [[|] r2] eqn:S; [|discriminate]. apply skipChar_inv in S. subst r1.
+  destruct (v1_extract_ip ipf r2) as [e|[src r3]] eqn:X1; [discriminate|].
+  apply extract_ip_inv in X1 as (st & -> & Hst & Hsc & Hsa).
+  destruct (v1_extract_ip ipf r3) as [e|[dst r4]] eqn:X2; [discriminate|].
+  apply extract_ip_inv in X2 as (dt & -> & Hdt & Hdc & Hda).
+  destruct (negb (list_eqb (address_family src dst) [f])) eqn:F; [discriminate|].
+  apply negb_false_iff, list_eqb_eq in F.
+  subst t. repeat (rewrite lenN_app in Hl || cbn [lenN] in Hl).
+  destruct (v1_extract_port true r4) as [e|[p1 r5]] eqn:X3; [discriminate|].
+  apply extract_port_inv in X3 as (sps & -> & Hs1 & Hs2 & -> & Hs3 & _); [|lia].
+  repeat (rewrite lenN_app in Hl || cbn [lenN] in Hl).
+  destruct (v1_extract_port false r5) as [e|[p2 r6]] eqn:X4; [discriminate|].
+  apply extract_port_inv in X4 as (dps & -> & Hd1 & Hd2 & -> & Hd3 & Hstop); [|lia].
+  intros H; inversion H; subst.
+  exists f, st, dt, sps, dps. cbn [app]. repeat split; assumption.
+Qed.
+
+(* every input on which Parse reports a v1 header with addresses starts with a well-formed
+   TCP line (modulo leading zeros in ports and what the IP conversion accepts), the reported
+   fields are the written ones and the size is the length of that line *)
+Theorem v1_accepted_is_wellformed ipf b h n :
+  pp_parse ipf b = Ok h n -> h_v2 h = false -> h_ignore h = false ->
+  exists fam st dt sps dps rest,
+    b = enc_v1_tcp fam st dt sps dps ++ rest /\ n = lenN (enc_v1_tcp fam st dt sps dps) /\
+    n <= v1_maxHeaderLength /\
+    famChars fam = true /\ address_family (h_src h) (h_dst h) = [fam] /\
+    st <> [] /\ forallb ipChars st = true /\ ipf st = Some (h_src h) /\
+    dt <> [] /\ forallb ipChars dt = true /\ ipf dt = Some (h_dst h) /\
+    sps <> [] /\ Forall is_dec sps /\ h_sport h = dec_value sps /\ h_sport h <= 65535 /\
+    dps <> [] /\ Forall is_dec dps /\ h_dport h = dec_value dps /\ h_dport h <= 65535 /\
+    h_cmd h = pp_cmdProxy /\ h_tlvs h = [].
+Proof.
+  unfold pp_parse. intros H Hv Hi.
+  destruct (tok_skip pp_magic2 b) as [[|] r] eqn:S2.
+  - apply add_size_ok in H as (n' & H & ->). exfalso. revert H. unfold v2_parse.
+    destruct (bt_uint8 true r) as [vc r1| |]; try discriminate.
+    destruct (negb _); [discriminate|]. destruct (pp_cmdProxy <? _); [discriminate|].
+    destruct (bt_uint8 true r1) as [fp r2| |]; try discriminate.
+    destruct (pp_afUnix <? _); [discriminate|]. destruct (pp_tpDgram <? _); [discriminate|].
+    destruct (bt_pstring16 true r2) as [raw r3| |]; try discriminate.
+    unfold v2_finish. destruct (_ || _); [intros H; inversion H; subst; discriminate|].
+    destruct (v2_addresses _ raw) as [[[[[s sp] d] dp] lo]|]; [|discriminate].
+    destruct (has_forwarded_addresses _); [|intros H; inversion H; subst; discriminate].
+    destruct (parse_tlvs lo); try discriminate. intros H; inversion H; subst; discriminate.
+  - destruct (tok_skip pp_magic1 b) as [[|] r1] eqn:S1; [|destruct (lenN pp_magic2 <=? lenN b); discriminate].
+    apply tok_skip_inv in S1. subst b.
+    apply add_size_ok in H as (n' & H & ->). unfold v1_parse in H.
+    destruct (v1_isolate r1) as [i m| |] eqn:I; try discriminate.
+    unfold v1_isolate in I.
+    destruct (tok_prefix nonCR v1_maxInteriorLength r1) as [[t q1]|] eqn:P; [|destruct (bt_atEnd r1); discriminate].
+    apply tok_prefix_sound in P as (Hr1 & _ & _ & Hle & _).
+    destruct (tok_skipChar 13 q1) as [[|] q2] eqn:C1; [|destruct (bt_atEnd q1); discriminate]. apply skipChar_inv in C1. subst q1.
+    destruct (tok_skipChar 10 q2) as [[|] q3] eqn:C2; [|destruct (bt_atEnd q2); discriminate]. apply skipChar_inv in C2. subst q2.
+    inversion I; subst i m. clear I.
+    unfold v1_interior in H.
+    destruct (tok_skipChar 32 t) as [[|] t1] eqn:C3; [|discriminate]. apply skipChar_inv in C3. subst t.
+    destruct (tok_skip s_TCP t1) as [[|] t2] eqn:T.
+    + apply tok_skip_inv in T. subst t1.
+      destruct (v1_addresses ipf t2) as [e|[[[[s sp] d] dp] lo]] eqn:V; [discriminate|].
+      destruct lo as [|l0 lo]; [|discriminate]. cbn [bt_atEnd] in H. inversion H; subst h n'. clear H.
+      change v1_maxInteriorLength with 100 in Hle.
+      repeat (rewrite lenN_app in Hle || cbn [lenN] in Hle). change (lenN s_TCP) with 3 in Hle.
+      apply v1_addresses_inv in V; [|unfold npos; lia].
+      destruct V as (fam & st & dt & sps & dps & -> & Hf & Haf & Hst & Hsc & Hsa & Hdt & Hdc & Hda & Hs1 & Hs2 & Hs3 & Hs4 & Hd1 & Hd2 & Hd3 & Hd4 & _).
+      exists fam, st, dt, sps, dps, q3. rewrite app_nil_r in *.
+      destruct (enc_v1_tcp_len fam st dt sps dps) as [L1 _].
+      repeat (rewrite lenN_app in Hle || cbn [lenN] in Hle).
+      cbn [h_src h_dst h_sport h_dport h_cmd h_tlvs header_set_addrs header_new].
+      split; [|split; [|split]]; [| | |repeat split; assumption].
+      * rewrite <- Hr1. unfold enc_v1_tcp. repeat (rewrite <- app_assoc; cbn [app]). reflexivity.
+      * rewrite L1. repeat (rewrite lenN_app || cbn [lenN]). change (lenN pp_magic1) with 5. change (lenN s_TCP) with 3. lia.
+      * change v1_maxHeaderLength with 107. repeat (rewrite lenN_app || cbn [lenN]). change (lenN pp_magic1) with 5. change (lenN s_TCP) with 3. lia.
+    + destruct (tok_skip s_UNKNOWN t1) as [[|] t3]; [|discriminate]. inversion H; subst. discriminate.
+Qed.
+
 (* a concrete IP text conversion for the Examples of Properties_C38.v: knows 1.1.1.1, ::1 and ::ffff:1.1.1.1 *)
 Definition ex_ipf (t : bytes) : option ipaddr :=
   if list_eqb t b_1111 then Some a_1111 else if list_eqb t b_v6 then Some a_v6
